@@ -189,6 +189,16 @@ def explore(tier, seed, model_ok=True, focus=False):
                                          observed=sa.OUTCOME_NAMES[c["outcome"]], message=c["msg"], call=c["call"],
                                          detail="model verdict (0 allowed, 1 permission error, 2 state error, 3 either; negative: role / state not "
                                                 "defined for the contract) disagrees with the outcome on the real contract"))
+    # router setSwapEnabledByUser: a plain user (the pair's initial liquidity adder) configures and resumes a pair through the
+    # router's own owner/pause permission on it - allowed only while the pair is in ActiveNoSwaps; router histories of C14's world
+    import props.c14 as c14
+    ex14 = c14.explore(tier, seed, model_ok=False, focus=focus, mon=c14.enable_swap_monitor, tag="C19r", scale=0.5)
+    ex.evaluations += ex14.evaluations
+    ex.histories += ex14.histories
+    ex.failures += ex14.failures
+    for k_, v_ in ex14.counters.items():
+        if k_.startswith("EnableSwap") or k_.startswith("Pause"):
+            ex.counters["router:" + k_] = v_
     # behavioural on-behalf exploration with a real permissions hub on farm / locked farm / farm-staking
     from props import behalf_common as bc
     ex = bc.merge(ex, bc.explore_behalf("C19", tier, seed, model_ok, focus, keys=bc.keys_c19))
@@ -197,6 +207,10 @@ def explore(tier, seed, model_ok=True, focus=False):
 
 def replay(data):
     rp = data.get("replay") or {}
+    if rp.get("system") == "router":
+        import props.c14 as c14
+        import sys_router as sr
+        return [dict(key=k, what=w) for op, o in sr.replay_history(rp["cfg"], rp["ops"]) for k, w in c14.enable_swap_monitor(rp["cfg"], op, o)]
     if rp.get("system") == "behalf":
         from props import behalf_common as bc
         return bc.replay_behalf(data, bc.keys_c19)
